@@ -35,7 +35,7 @@ def BOUNDS(tier):
 
 
 def REQUIRED_COVER(tier):
-    return {'ids:local>peer', 'ids:local<peer', 'ids:equal', 'pair:same-key', 'flip:sig', 'flip:msg', 'sign:resplit', 'mnemonic:deviation', 'wallet-key', 'derive-history', 'sign:encoders', 'mnemonic:keeps-drawing', 'channel-history', 'mnemonic:stream-family', 'mnemonic:words-count'}
+    return {'ids:local>peer', 'ids:local<peer', 'ids:equal', 'pair:same-key', 'flip:sig', 'flip:msg', 'sign:resplit', 'mnemonic:deviation', 'wallet-key', 'derive-history', 'sign:encoders', 'mnemonic:keeps-drawing', 'channel-history', 'channel-history:damaged', 'mnemonic:stream-family', 'mnemonic:words-count'}
 
 
 # ------------------------------------------------------------------ reference derivations
@@ -191,6 +191,50 @@ def case_channel_history(rec, ia, ib, idmode, depth, first=None):
                     rec.violation('channel-history:redecrypt', f'keys {ia},{ib} ids {idmode}: an earlier packet of the conversation {list(seq)} no longer decrypts', 'case_channel_history', args)
                     return
             rec.trace()
+    # sixth session - conversations with DAMAGED datagrams in between: the receiving side is handed a datagram cut short (a checksum of 0, 3
+    # or 31 bytes, or of 40) - whatever it does with it (raise, return rubbish), the channel is as good as before for every later packet
+    if first is None or first < 4:
+        lens2 = (HIST_LENGTHS[1], HIST_LENGTHS[-1])
+        ev2 = [(d, L) for d in (0, 1) for L in lens2] + [(d, -c) for d in (0, 1) for c in (1, 3, 31, 40)]
+        for dlen in range(2, depth + 1):
+            for seq in itertools.product(ev2, repeat=dlen):
+                if first is not None and ev2.index(seq[0]) % 4 != first:
+                    continue
+                if not any(L < 0 for _, L in seq) or seq[-1][1] < 0:
+                    continue
+                ca, cb = Client(sa), Client(sb)
+                id_a, id_b = ca.get_key_id(), cb.get_key_id()
+                if idmode == 'swapped':
+                    id_a, id_b = id_b, id_a
+                elif idmode == 'equal':
+                    id_b = id_a
+                ch = [AdnlChannel(ca, Server('h', 1, pb), id_a, id_b), AdnlChannel(cb, Server('h', 1, pa), id_b, id_a)]
+                ids = [id_a, id_b]
+                rec.trans(2 * dlen)
+                n += 1
+                for k, (d, L) in enumerate(seq):
+                    if L < 0:
+                        pkt = ch[d].encrypt(plains[lens2[0]])
+                        cs = (pkt[32:64] + bytes(8))[:-L if L != -1 else 0]
+                        try:
+                            ch[1 - d].decrypt(pkt[64:], cs)
+                        except Exception:
+                            pass
+                        continue
+                    enc_key = shared if ids[d] >= ids[1 - d] else shared[::-1]
+                    try:
+                        pkt = ch[d].encrypt(plains[L])
+                        back = ch[1 - d].decrypt(pkt[64:], pkt[32:64])
+                    except Exception as e:
+                        rec.violation('channel-history:after-damaged', f'keys {ia},{ib} ids {idmode}: conversation {list(seq)} (negative length = a datagram with a checksum of that '
+                                      f'many bytes handed to the receiver): the valid packet #{k} raised {exc_name(e)}: {e}', 'case_channel_history', args)
+                        return
+                    if pkt != ref_packet(enc_key, plains[L]) or back != plains[L]:
+                        rec.violation('channel-history:after-damaged', f'keys {ia},{ib} ids {idmode}: conversation {list(seq)}: the valid packet #{k} is not the reference packet / '
+                                      f'is not decrypted to its plaintext after a damaged datagram was handled', 'case_channel_history', args)
+                        return
+                rec.trace()
+        rec.covered('channel-history:damaged')
     rec.state(('chanhist', ia, ib, idmode, depth, first))
     rec.nontriv(('chanhist', ia, ib, idmode, depth, first))
     rec.covered('channel-history')
